@@ -172,10 +172,13 @@ func (m *ModulusBasic) modInvOdd(out, x *Nat) ct.Bool {
 func (m *ModulusBasic) modInvEven(out, x *Nat) ct.Bool {
 	ok := x.IsNonZero() & x.Coprime(m.Nat())
 	if ok == ct.True {
-		(*saferith.Nat)(out).SetBig(
+		// saferith's SetBig keeps the receiver's limbs beyond the length of the
+		// big.Int, so out (which may alias x) must not be its receiver.
+		inv := new(saferith.Nat).SetBig(
 			new(big.Int).ModInverse((*saferith.Nat)(x).Big(), (*saferith.Modulus)(m).Big()),
 			(*saferith.Modulus)(m).BitLen(),
 		)
+		out.Set((*Nat)(inv))
 	}
 	return ok
 }
@@ -244,7 +247,8 @@ func (m *ModulusBasic) modExpEven(out, b *Nat, exp *big.Int) {
 
 	result := new(big.Int).Exp(baseBig, exp, modBig)
 	bitlen := (*saferith.Modulus)(m).BitLen()
-	(*saferith.Nat)(out).SetBig(result, bitlen)
+	// As in modInvEven: SetBig on out would keep stale high limbs of out.
+	out.Set((*Nat)(new(saferith.Nat).SetBig(result, bitlen)))
 }
 
 // ModExp sets out = base^exp (mod m).
